@@ -4,6 +4,7 @@ import (
 	"fmt"
 	"go/token"
 	"go/types"
+	"regexp"
 	"sort"
 	"strings"
 
@@ -32,6 +33,16 @@ func checkC01(p *Program, r *Report) {
 	checkCodecsAs(p, r, "C01")
 	checkBuildStateless(p, r, "C01.build-stateless")
 	checkOptNormalisationAs(p, r, "C01.options")
+	r.Explanation += " (align) wherever the position at which the builder cuts labels (bmtree.PathsOf/PathOf) is aligned by a constant mask, the mask clears at least log2(w) low bits for every label word size w that can reach the same call together with it (leaves of position and word size paired per phi edge and helper return): a 257-bit node is cut at whole bytes, as the readers address it."
+	checkCutAlignment(p, r, "C01.align")
+	// a step stored in fewer bits than it needs makes the descent skip the wrong number of key bits:
+	// retained keys below that node are not found
+	if entry := p.Trie.Func("NewSlimTrie"); entry != nil {
+		if F := findBuilder(p, entry); F != nil {
+			r.Explanation += " (narrow) every narrowing conversion on the construction path is bounded (rule shared with C08)."
+			checkNarrowAs(p, r, "C01.narrow", entry, F)
+		}
+	}
 }
 
 // ---------------------------------------------------------------------------
@@ -864,9 +875,148 @@ func checkCapacity(p *Program, r *Report, rule string) {
 			r.Check(bad == "", "capacity of "+dst, p.Pos(call.Pos()), "capacity = last ordinal + 1 = "+capT.String(), bad)
 		}
 	}
+	n += localListCapacities(p, r)
 	if n == 0 {
 		r.Unk("presence bitmap capacities", "", "no presence bitmap with counter-derived ordinals found in the builder")
 	}
+}
+
+// localListCapacities: a presence bitmap built from a local list to which a loop appends its own index
+// under the loop test index < len(X) (newVLenArray: the indexes of the non-empty elements): readers
+// probe the bitmap at every ordinal below len(X), so the capacity handed to the bitmap builder must be
+// len(X) itself — not the number of entries, which is smaller whenever the last elements are empty.
+func localListCapacities(p *Program, r *Report) int {
+	n := 0
+	stripConv := func(t *term) *term {
+		for t != nil && strings.HasPrefix(t.String(), "conv:") && len(t.args) == 1 {
+			t = t.args[0]
+		}
+		return t
+	}
+	for _, f := range p.FuncsOf(triePath) {
+		if f.Synthetic != "" || len(f.Blocks) == 0 || !trieScope(f) {
+			continue
+		}
+		e := newEval(p)
+		for _, c := range callsIn(f) {
+			call, ok := c.(*ssa.Call)
+			if !ok {
+				continue
+			}
+			if _, ok := builtKinds(call); !ok || len(call.Call.Args) < 2 {
+				continue
+			}
+			dst := storedTo(call)
+			if !strings.HasSuffix(dst, ".PresenceBM") && !strings.HasSuffix(dst, ".ShortBM") {
+				continue
+			}
+			// the list: a local slice grown by append in a loop
+			var appends []*ssa.Call
+			okList := true
+			for v := range phiClosure(call.Call.Args[0]) {
+				switch x := v.(type) {
+				case *ssa.Phi:
+				case *ssa.Call:
+					if bi, isB := x.Call.Value.(*ssa.Builtin); isB && bi.Name() == "append" && len(x.Call.Args) == 2 {
+						appends = append(appends, x)
+						for w := range phiClosure(x.Call.Args[0]) {
+							switch y := w.(type) {
+							case *ssa.Phi, *ssa.MakeSlice, *ssa.Const:
+							case *ssa.Call:
+								if bi2, isB2 := y.Call.Value.(*ssa.Builtin); !isB2 || bi2.Name() != "append" {
+									okList = false
+								}
+							default:
+								okList = false
+							}
+						}
+					} else {
+						okList = false
+					}
+				case *ssa.MakeSlice, *ssa.Const:
+				default:
+					okList = false
+				}
+			}
+			if !okList || len(appends) == 0 {
+				continue
+			}
+			var bounds []string
+			opaque := false
+			for _, ap := range appends {
+				sl, ok := ap.Call.Args[1].(*ssa.Slice)
+				if !ok {
+					opaque = true
+					break
+				}
+				al, ok := sl.X.(*ssa.Alloc)
+				if !ok {
+					opaque = true
+					break
+				}
+				for _, ref := range *al.Referrers() {
+					ia, ok := ref.(*ssa.IndexAddr)
+					if !ok {
+						continue
+					}
+					for _, r2 := range *ia.Referrers() {
+						s2, ok := r2.(*ssa.Store)
+						if !ok {
+							continue
+						}
+						elem := s2.Val
+						for {
+							if cv, ok := elem.(*ssa.Convert); ok {
+								elem = cv.X
+								continue
+							}
+							break
+						}
+						// the dominating loop test elem < len(X)
+						found := ""
+						for d := ap.Block(); d != nil && found == ""; d = d.Idom() {
+							id := d.Idom()
+							if id == nil {
+								break
+							}
+							iff, ok := lastInstr(id).(*ssa.If)
+							if !ok || id.Succs[0] != d && !id.Succs[0].Dominates(d) {
+								continue
+							}
+							bo, ok := iff.Cond.(*ssa.BinOp)
+							if !ok || bo.Op != token.LSS || bo.X != elem {
+								continue
+							}
+							lt := stripConv(e.eval(bo.Y))
+							if lt != nil && strings.HasPrefix(lt.String(), "len(") {
+								found = lt.String()
+							}
+						}
+						if found == "" {
+							opaque = true
+						} else {
+							bounds = append(bounds, found)
+						}
+					}
+				}
+			}
+			if opaque || len(bounds) == 0 {
+				continue
+			}
+			n++
+			r.Func(shortFn(f))
+			capT := stripConv(e.eval(call.Call.Args[1]))
+			canon := lockstepCanon(p)
+			bad := ""
+			for _, b := range dedupStrings(bounds) {
+				if capT == nil || canon(capT.String()) != canon(b) {
+					bad = fmt.Sprintf("capacity is %s but the list holds loop indexes below %s: the bits of the last elements without an entry are outside the bitmap and reading them is out of range", capT, b)
+				}
+			}
+			r.Check(bad == "", "capacity of "+dst+" in "+shortFn(f), p.Pos(call.Pos()), "capacity = bound of the loop whose indexes are listed = "+capT.String(), bad)
+		}
+	}
+	return n
 }
 
 func init() { checks["C01"] = checkC01 }
@@ -993,4 +1143,95 @@ func structConstTuples(p *Program, v ssa.Value, d int) ([]map[int]int64, bool) {
 		return []map[int]int64{t}, true
 	}
 	return nil, false
+}
+
+// lockstepCanon: slice fields of one record of package trie that grow together — every append to one
+// of them stands in the same basic block as exactly one append to each of the others, on the same
+// record, and nothing else assigns them — have the same length at all times between those blocks. The
+// returned function rewrites "len(x.f)" to the length of the first field (by name) of f's class.
+var lockstepCache = map[*Program]map[string]string{}
+
+func lockstepCanon(p *Program) func(string) string {
+	cls, ok := lockstepCache[p]
+	if !ok {
+		cls = map[string]string{}
+		// field -> sorted list of append sites "fn#block#base"
+		sites := map[*types.Var][]string{}
+		other := map[*types.Var]bool{}
+		for _, f := range p.FuncsOf(triePath) {
+			if f.Synthetic != "" || len(f.Blocks) == 0 {
+				continue
+			}
+			instrsOf(f, func(b *ssa.BasicBlock, in ssa.Instruction) {
+				st, ok := in.(*ssa.Store)
+				if !ok {
+					return
+				}
+				_, fv, fa := fieldOfAddr(st.Addr)
+				if fa == nil {
+					return
+				}
+				if _, isSlice := fv.Type().Underlying().(*types.Slice); !isSlice {
+					return
+				}
+				if ap, ok := st.Val.(*ssa.Call); ok {
+					if bi, isB := ap.Call.Value.(*ssa.Builtin); isB && bi.Name() == "append" && len(ap.Call.Args) == 2 {
+						// one element appended to the same field of the same record
+						if ld, ok := deref(ap.Call.Args[0]); ok {
+							if _, fv2, fa2 := fieldOfAddr(ld); fa2 != nil && fv2 == fv && fa2.X == fa.X {
+								if sl, ok := ap.Call.Args[1].(*ssa.Slice); ok {
+									if al, ok := sl.X.(*ssa.Alloc); ok {
+										if at, ok := al.Type().Underlying().(*types.Pointer).Elem().Underlying().(*types.Array); ok && at.Len() == 1 {
+											sites[fv] = append(sites[fv], fmt.Sprintf("%s#%d#%s", f.String(), b.Index, fa.X.Name()))
+											return
+										}
+									}
+								}
+							}
+						}
+					}
+				}
+				switch st.Val.(type) {
+				case *ssa.MakeSlice, *ssa.Const:
+					return // initialisation
+				}
+				other[fv] = true
+			})
+		}
+		bySig := map[string][]string{}
+		for fv, ss := range sites {
+			if other[fv] {
+				continue
+			}
+			sort.Strings(ss)
+			dup := false
+			for i := 1; i < len(ss); i++ {
+				if ss[i] == ss[i-1] {
+					dup = true // two appends in one block
+				}
+			}
+			if dup {
+				continue
+			}
+			sig := strings.Join(ss, ";")
+			bySig[sig] = append(bySig[sig], fv.Name())
+		}
+		for _, names := range bySig {
+			sort.Strings(names)
+			for _, n := range names {
+				cls[n] = names[0]
+			}
+		}
+		lockstepCache[p] = cls
+	}
+	re := regexp.MustCompile(`len\(([A-Za-z0-9_:.]*\.)([A-Za-z0-9_]+)\)`)
+	return func(t string) string {
+		return re.ReplaceAllStringFunc(t, func(m string) string {
+			sm := re.FindStringSubmatch(m)
+			if rep, ok := cls[sm[2]]; ok {
+				return "len(" + sm[1] + rep + ")"
+			}
+			return m
+		})
+	}
 }
